@@ -200,7 +200,7 @@ def run(params, chooser):
         ar.builder.factory['PipelineSeries'].concurrency = conc
 
     ar = AppRun(site, argv, chooser, early=params.get('early', True),
-                horizon=params.get('horizon', 60000))
+                horizon=params.get('horizon', 60000), chunk=params.get('chunk'))
 
     def on_quiescent():
         trans[0] += 1
@@ -342,6 +342,12 @@ def jobs(tier, seed):
             js.append(dict(params=dict(site='g%d' % mask, opts='r', conc=2), budget=1,
                            prefix=[]))
     js.append(dict(params=dict(site='bigdocs', opts='r-p', conc=1), budget=0, prefix=[]))
+    # responses delivered in pieces (header and body arrive separately), so that events of
+    # another connection can fall between them
+    for s_, o_, ch in ([('redir', 'r', 120), ('cycle', 'r', 120)] if tier == 'quick' else
+                       [('redir', 'r', 120), ('cycle', 'r', 120), ('redir', 'r', 64),
+                        ('reqs', 'r-p', 120), ('depth', 'r-l2', 120)]):
+        js.append(dict(params=dict(site=s_, opts=o_, conc=2, chunk=ch), budget=0, prefix=[]))
     # a page whose links cross wpull's 1000-URL storage batch (one run each, no reordering)
     js.append(dict(params=dict(site='fanout1005', opts='r', conc=1, horizon=400000, light=True), budget=0,
                    prefix=[]))
